@@ -6,6 +6,8 @@ package memberlist
 
 import (
 	"fmt"
+	"io"
+	"log"
 	"os"
 	"time"
 )
@@ -127,3 +129,10 @@ func containsStr(s, sub string) bool {
 	}
 	return false
 }
+
+func vLogger() *log.Logger { return log.New(io.Discard, "", 0) }
+
+// vTier: 0 = quick bounds, 1 = thorough bounds (set by the engine flag / the replay file).
+var vTierVal int
+
+func vTier() int { return vTierVal }
